@@ -84,7 +84,7 @@ pub proof fn lemma_sat_interval_domain_new_top()
     assert(1 <= ByteSize(0x200_0000).0 <= MAXBYTES());
 }
 
-/// top, is_top, try_to_bitvec, try_to_interval, without_widening_hints: `requires self.inv()`
+/// top, is_top, try_to_bitvec, try_to_interval: `requires self.inv()`  (without_widening_hints has NO precondition since finding M1 was repaired)
 pub proof fn lemma_sat_interval_domain_top()
     ensures exists |s: IntervalDomain| #[trigger] s.inv(),
 {
